@@ -29,8 +29,9 @@ def xtermMask : Nat := ModShift ||| ModAlt ||| ModCtrl
 
 /-- The table-driven prefix of `encodeXterm` (everything up to and including the `xtermKeymap`
     lookup): depends only on the key code, the xterm modifiers and the two key modes. `none` = fall
-    through to the text / character part. -/
-def encodeTables (kc : Int) (xtermMods : Nat) (deckpam decckm : Bool) : Option Str :=
+    through to the text / character part.  `text` (the event's `Text`) is only read by the last step
+    of the `xtermMods == 0` block (character keys). -/
+def encodeTables (kc : Int) (xtermMods : Nat) (deckpam decckm : Bool) (text : Str := []) : Option Str :=
   let plain : Option Str :=
     if xtermMods = 0 then
       match lookup kc keymap with
@@ -41,7 +42,9 @@ def encodeTables (kc : Int) (xtermMods : Nat) (deckpam decckm : Bool) : Option S
       | none =>
       match lookup kc (if deckpam then applicationKeymap else numericKeymap) with
       | some v => some (bytesStr v)
-      | none => if kc < maxRune then some (strOfRune kc) else none
+      | none =>
+        -- Unicode keys: `if key.Text != "" { return key.Text }; return string(key.Keycode)`
+        if kc < maxRune then some (if text ≠ [] then text else strOfRune kc) else none
     else none
   match plain with
   | some s => some s
@@ -57,17 +60,21 @@ def encodeXterm (u : Uni) (key : Key) (deckpam decckm : Bool) : Str :=
   -- `key.Modifiers & ModShift | key.Modifiers & ModAlt | key.Modifiers & ModCtrl`
   let xtermMods := (key.mods &&& ModShift) ||| (key.mods &&& ModAlt) ||| (key.mods &&& ModCtrl)
   let kc := key.keycode
-  match encodeTables kc xtermMods deckpam decckm with
+  match encodeTables kc xtermMods deckpam decckm key.text with
   | some s => s
   | none =>
   if key.text ≠ [] ∧ key.mods &&& ModCtrl = 0 ∧ key.mods &&& ModAlt = 0 then key.text
   else if kc < maxRune then
     let esc : Str := if xtermMods &&& ModAlt ≠ 0 then [27] else []
     if xtermMods &&& ModCtrl ≠ 0 then
-      if u.isLower kc then esc ++ strOfRune (kc - 0x60)
+      -- `key.Keycode >= 'a' && key.Keycode <= 'z'` (no longer `unicode.IsLower`)
+      if 97 ≤ kc ∧ kc ≤ 122 then esc ++ strOfRune (kc - 0x60)
       else match lookup kc ctrlCases with
         | some out => esc ++ (out.map fun r => if validRune r then r else 0xFFFD)
-        | none => esc ++ strOfRune (kc - 0x40)
+        | none =>
+          -- default arm: the control code for `lo ≤ kc < hi`, else the key itself
+          if ctrlDefaultRange.1 ≤ kc ∧ kc < ctrlDefaultRange.2 then esc ++ strOfRune (kc - 0x40)
+          else esc ++ strOfRune kc
     else if xtermMods &&& ModShift ≠ 0 then
       if key.shifted > 0 then esc ++ strOfRune key.shifted else esc ++ strOfRune (u.toUpper kc)
     else esc ++ strOfRune kc
